@@ -2,6 +2,7 @@ package scen
 
 import (
 	"fmt"
+	"strings"
 	"time"
 
 	"verif/mc"
@@ -117,6 +118,28 @@ func anchorScenario(o anchorOpts) *Scenario {
 				return l - 1
 			}),
 			wrecAct("wrec(W1,#1,maxuint64)", "W1", 1, func(uint64) uint64 { return maxU64 }),
+			// hashes at and beyond the size limit (66 characters)
+			Action{Name: "wrec(W1,#1,next,hashes66)", Dt: time.Millisecond, Txs: func(m *model.State) []model.Tx {
+				h66 := "0x" + strings.Repeat("a", 64)
+				last := uint64(0)
+				if e, ok := m.Wrk.Ents[1]; ok {
+					last = e.Last
+				}
+				return []model.Tx{{Msgs: []model.Msg{{Kind: model.WrkRec, From: "W1", ID: 1, H: last + 1, S: []string{h66, h66, h66, h66, h66}}}, Fee: fee(m.Wrk.P.FeeRec)}}
+			}},
+			Action{Name: "wrec(W1,#1,next,hash67)", Dt: time.Millisecond, Txs: func(m *model.State) []model.Tx {
+				last := uint64(0)
+				if e, ok := m.Wrk.Ents[1]; ok {
+					last = e.Last
+				}
+				return []model.Tx{{Msgs: []model.Msg{{Kind: model.WrkRec, From: "W1", ID: 1, H: last + 1, S: []string{"0xb", "", "", "0x" + strings.Repeat("a", 65), ""}}}, Fee: fee(m.Wrk.P.FeeRec)}}
+			}},
+			Action{Name: "brec(W1,#1,hash66)", Dt: time.Millisecond, Txs: func(m *model.State) []model.Tx {
+				return []model.Tx{{Msgs: []model.Msg{{Kind: model.BcnRec, From: "W1", ID: 1, S: []string{"0x" + strings.Repeat("b", 64)}, T: 1_600_000_000}}, Fee: fee(m.Bcn.P.FeeRec)}}
+			}},
+			Action{Name: "brec(W1,#1,hash67)", Dt: time.Millisecond, Txs: func(m *model.State) []model.Tx {
+				return []model.Tx{{Msgs: []model.Msg{{Kind: model.BcnRec, From: "W1", ID: 1, S: []string{"0x" + strings.Repeat("b", 65)}, T: 1_600_000_000}}, Fee: fee(m.Bcn.P.FeeRec)}}
+			}},
 			wrecAct("wrec(W2,#1,next)", "W2", 1, next), // non-owner
 			wrecAct("wrec(W2,#2,next)", "W2", 2, next),
 			brecAct("brec(W2,#1)", "W2", 1), // non-owner
@@ -125,7 +148,12 @@ func anchorScenario(o anchorOpts) *Scenario {
 			purAct("bpur(W1,#1,1)", model.BcnPur, "W1", 1, 1, ""),
 		)
 	}
-	if o.purchases {
+	if o.heights {
+		// the maximum lowered by governance below a limit the chain already holds: records are kept up to the
+		// chain's own limit all the same
+		add(anchorGov("gov(wrk:default=1,max=2)", model.WrkParams, model.AnchorParams{FeeReg: 24, FeeRec: 2, FeePur: 3, Denom: mc.Nund, Default: 1, Max: 2}))
+	}
+	if o.purchases || o.heights {
 		// three records in one block (retention effects that need several records are one step away)
 		add(
 			Action{Name: "wrec(W1,#1,next)x3", Dt: time.Millisecond, Txs: func(m *model.State) []model.Tx {
@@ -151,7 +179,10 @@ func anchorScenario(o anchorOpts) *Scenario {
 				return txs
 			}},
 		)
+	}
+	if o.purchases {
 		add(
+			purAct("wpur(W1,#1,0)", model.WrkPur, "W1", 1, 0, ""),
 			purAct("wpur(W1,#1,1)", model.WrkPur, "W1", 1, 1, ""),
 			purAct("wpur(W1,#1,2)", model.WrkPur, "W1", 1, 2, ""),
 			purAct("wpur(W1,#1,3)", model.WrkPur, "W1", 1, 3, ""),
@@ -250,8 +281,8 @@ func init() {
 	Checks["C07"] = func() *Check {
 		return &Check{ID: "C07",
 			Runs: []Run{{S: anchorScenario(anchorOpts{name: "anchor-records", heights: true}), Opt: map[Tier]Options{
-				Quick:    {Depth: 5, Budget: 150 * time.Second, ReplayEvery: 16},
-				Thorough: {Depth: 8, Budget: 25 * time.Minute, ReplayEvery: 32, MaxStates: 500000},
+				Quick:    {Depth: 4, Budget: 150 * time.Second, ReplayEvery: 16},
+				Thorough: {Depth: 8, Budget: 15 * time.Minute, ReplayEvery: 32, MaxStates: 500000},
 			}}},
 			Owns: ownsAny("anch.record", "anch.missing", "tx.accept_unexpected:wrk.rec:height_not_new", "tx.accept_unexpected:wrk.rec:not_owner", "tx.accept_unexpected:bcn.rec:not_owner", "tx.nonatomic"),
 		}
@@ -259,8 +290,8 @@ func init() {
 	Checks["C08"] = func() *Check {
 		return &Check{ID: "C08",
 			Runs: []Run{{S: anchorScenario(anchorOpts{name: "anchor-retention", purchases: true}), Opt: map[Tier]Options{
-				Quick:    {Depth: 5, Budget: 150 * time.Second, ReplayEvery: 16},
-				Thorough: {Depth: 8, Budget: 25 * time.Minute, ReplayEvery: 32, MaxStates: 500000},
+				Quick:    {Depth: 4, Budget: 150 * time.Second, ReplayEvery: 16},
+				Thorough: {Depth: 8, Budget: 15 * time.Minute, ReplayEvery: 32, MaxStates: 500000},
 			}}},
 			Owns: ownsAny("anch.missing", "anch.unpruned", "anch.meta", "anch.limit", "anch.storage", "tx.accept_unexpected:wrk.pur", "tx.accept_unexpected:bcn.pur"),
 		}
@@ -269,7 +300,7 @@ func init() {
 		return &Check{ID: "C09",
 			Runs: []Run{{S: anchorScenario(anchorOpts{name: "anchor-identity", identity: true}), Opt: map[Tier]Options{
 				Quick:    {Depth: 4, Budget: 150 * time.Second, ReplayEvery: 16},
-				Thorough: {Depth: 6, Budget: 25 * time.Minute, ReplayEvery: 32, MaxStates: 500000},
+				Thorough: {Depth: 6, Budget: 15 * time.Minute, ReplayEvery: 32, MaxStates: 500000},
 			}}},
 			Owns: ownsAny("anch.identity", "tx.accept_unexpected:wrk.rec:not_owner", "tx.accept_unexpected:wrk.rec:no_such_entity", "tx.accept_unexpected:bcn.rec:not_owner", "tx.accept_unexpected:bcn.rec:no_such_entity",
 				"tx.accept_unexpected:wrk.pur:not_owner", "tx.accept_unexpected:wrk.pur:no_such_entity", "tx.accept_unexpected:bcn.pur:not_owner", "tx.accept_unexpected:bcn.pur:no_such_entity", "tx.nonatomic"),
